@@ -78,8 +78,16 @@ def check_python(report):
     rp = m.member(mt, "resource_path")
     rets = [n for n in ast.walk(rp.node) if isinstance(n, ast.Return)]
     r1.instance("resource_path")
-    r1.check(len(rets) == 1 and pmatch("next(iter(self.options.Extensions[resource_pb2.resource].pattern), None)", rets[0].value) is not None,
-             p, rp.node.lineno, ast.unparse(rets[0].value) if rets else "", "resource_path is the first declared pattern (or None)")
+    # "first element or None" has several spellings: next(iter(X), None), X[0] if X else None, X[0] if len(X) > 0 else None - read on the normal form
+    from ..pymodel import nreturn as _nr
+    e_rp = _nr(m, m.func("gapic.schema.wrappers.MessageType.resource_path"))
+    PAT_ = "self.options.Extensions[resource_pb2.resource].pattern"
+    forms_ = (f"next(iter({PAT_}), None)", f"{PAT_}[0] if {PAT_} else None", f"{PAT_}[0] if len({PAT_}) > 0 else None",
+              f"{PAT_}[0] if len({PAT_}) >= 1 else None", f"None if not {PAT_} else {PAT_}[0]", f"None if len({PAT_}) == 0 else {PAT_}[0]",
+              f"next((_c1 for _c1 in {PAT_}), None)")
+    got_rp = ast.unparse(e_rp) if e_rp is not None else ""
+    r1.need(e_rp is not None, "MessageType.resource_path", "does not reduce to one expression")
+    r1.check(any(pmatch(f_, e_rp) is not None for f_ in forms_), p, rp.node.lineno, got_rp[:120], "resource_path is the first declared pattern (or None)")
 
     # ---- path_regex_str: decided on the decision table of the normal form (loop / comprehension / generator, early return for the
     # wildcard or a test afterwards, f-string / format / concatenation ... all give the same table)
